@@ -294,6 +294,22 @@ func vC14Configs(tier string) []vVecCfg {
 			}
 		}
 	}
+	// larger numbers of subspaces (M = 3..8, one or two components each): table / code
+	// indexing per subspace
+	for _, metric := range metrics {
+		for m := 3; m <= 8; m++ {
+			dimsM := []int{m}
+			if tier == "thorough" {
+				dimsM = []int{m, 2 * m}
+			}
+			for _, d := range dimsM {
+				for _, nb := range []int{1, 3} {
+					out = append(out, vVecCfg{Kind: "pq", Metric: metric, Dim: d, M: m, NBits: nb, Train: -2})
+					out = append(out, vVecCfg{Kind: "ivfpq", Metric: metric, Dim: d, NList: 2, M: m, NBits: nb, Train: -2})
+				}
+			}
+		}
+	}
 	return out
 }
 
